@@ -1454,6 +1454,71 @@ func (e *exh) phiEdgeFeasible(x *ssa.Phi, i int, ctx *Ctx, depth int) bool {
 	return true
 }
 
+// errMustBeNil: v is the error result of a plain helper of the module that is
+// handed an item, and under ctx every return of the helper that can be taken
+// answers a nil error.
+func (e *exh) errMustBeNil(v ssa.Value, ctx *Ctx, depth int) bool {
+	if depth > 2 || v == nil {
+		return false
+	}
+	if isNilConst(stripConvPlain(v)) {
+		return true
+	}
+	x, ok := stripConvPlain(v).(*ssa.Extract)
+	if !ok {
+		return false
+	}
+	c, ok := x.Tuple.(*ssa.Call)
+	if !ok || c.Call.IsInvoke() {
+		return false
+	}
+	sc := c.Call.StaticCallee()
+	if sc == nil || !inModule(sc) || sc.Blocks == nil || len(sc.Blocks) > 60 || isMethodOfExecutor(e.p, sc) || e.p.pairKind(sc.Signature) != "" {
+		return false
+	}
+	takesItem := false
+	for _, q := range sc.Params {
+		if isContextType(q.Type()) {
+			return false
+		}
+		if it, ok := q.Type().Underlying().(*types.Interface); ok && it.NumMethods() == 0 {
+			takesItem = true
+		}
+	}
+	if !takesItem {
+		return false
+	}
+	sub := e.subCtx(c, sc, ctx)
+	sig := "nil:"
+	for _, q := range sc.Params {
+		if av := sub.bind[q]; av != nil && (av.kind == "types" || av.kind == "ints" || av.kind == "bool") {
+			sig += q.Name() + "=" + av.String(e.p) + ";"
+		}
+	}
+	key := nonNilKey{sc, x.Index, sig}
+	if r, ok := e.nonNilMemo[key]; ok {
+		return r
+	}
+	if e.nonNilMemo == nil {
+		e.nonNilMemo = map[nonNilKey]bool{}
+	}
+	e.nonNilMemo[key] = false
+	n, res := 0, true
+	for _, r := range returnsOf(sc) {
+		if x.Index >= len(r.Results) || !e.feasible(r.Instr.Block(), sub) {
+			continue
+		}
+		n++
+		if !e.errMustBeNil(r.Results[x.Index], sub, depth+1) {
+			res = false
+			break
+		}
+	}
+	res = res && n > 0
+	e.nonNilMemo[key] = res
+	return res
+}
+
 type nonNilKey struct {
 	fn  *ssa.Function
 	idx int
@@ -1892,6 +1957,11 @@ func (e *exh) edgeOK(p *ssa.BasicBlock, si int, ctx *Ctx) bool {
 			continue
 		}
 		if (bo.Op == token.EQL) == cf.Truth && ctx != nil && e.errMustBeNonNil(x, ctx, p, 0) {
+			return false
+		}
+		// … or no error for any value of the types bound here (`num, err :=
+		// toNumber(v)` with v an int64)
+		if (bo.Op == token.NEQ) == cf.Truth && ctx != nil && e.errMustBeNil(x, ctx, 0) {
 			return false
 		}
 	}
